@@ -166,6 +166,21 @@ def run_cases(ctx, res, cases, tmp, keypath, key):
                         rp = outcome(lambda: fld.to_python(cfg, rb[1]))
                         if rp[0] == "ok":
                             r3 = outcome(lambda: fld.validate(cfg, rp[1]))
+            if r1[0] == "ok" and F.has_kind(f, ("secure",)) and rb and rb[0] == "ok" and rp and rp[0] == "ok":
+                # the same field object serves every configuration of its schema: a second configuration with another key file converts
+                # the same value to its own on-disk form and back
+                kp2 = keypath + ".second"
+                if not os.path.exists(kp2):
+                    with open(kp2, "wb") as fh:
+                        fh.write(bytes(range(100, 132)))
+                cfg2 = cfg._schema()
+                cfg2._key_filename = kp2
+                with Urandom():
+                    rb2 = outcome(lambda: fld.to_basic(cfg2, r1[1]))
+                    rp2 = outcome(lambda: fld.to_python(cfg2, rb2[1])) if rb2[0] == "ok" else rb2
+                if rp2[0] != "ok" or not same(rp2[1], rp[1]):
+                    res.violate("C05:codec-second-configuration:" + f["k"], "a second configuration of the same schema, with its own key file, does not get the value "
+                                "back from its own on-disk form", dict(case, second=[rp2[0], F.enc_val(rp2[1]) if rp2[0] == "ok" else rp2[1]]))
             reached = r1[0] == "ok" or (isinstance(v, (str, int, float, list, tuple, dict, bytes)) and not isinstance(v, bool))
             changed = r1[0] == "ok" and not same(r1[1], v)
             key_nt = json.dumps([f, F.canon_val(F.enc_val(v))], sort_keys=True, default=str) if (reached or changed) else None
